@@ -68,6 +68,9 @@ def serial_tag(port, legacy):
     return None
 
 
+ENUMERATION_STYLE = ["list"]        # how the stubbed enumerator hands the ports over
+
+
 class Env:
     """Both layers with comports() replaced."""
 
@@ -79,6 +82,10 @@ class Env:
     def _comports(self):
         if self.raising:
             raise TypeError("comports() failed (injected)")
+        if ENUMERATION_STYLE[0] == "generator":     # pyserial 2.x handed out a one-shot iterator
+            return (port for port in list(self.ports))
+        if ENUMERATION_STYLE[0] == "tuple":
+            return tuple(self.ports)
         return list(self.ports)
 
     def __enter__(self):
@@ -341,6 +348,17 @@ def _prefix_chunk(lists):
     part = core.Part()
     for ports in lists:
         bad, calls = check_list(ports)
+        # the same enumeration handed over as a one-shot iterator and as a tuple (the library
+        # wraps the enumerator's answer in list() for a reason)
+        for style in ("generator", "tuple"):
+            ENUMERATION_STYLE[0] = style
+            try:
+                more, n_calls = check_list(ports)
+            finally:
+                ENUMERATION_STYLE[0] = "list"
+            calls += n_calls
+            bad += [(c, m + f" [enumerator answers with a {style}]", l) for c, m, l in more
+                    if (c, m, l) not in bad]
         part.count("lists")
         part.count("prefix_name_lists")
         part.count("nontrivial")
@@ -465,7 +483,15 @@ def replay(case):
     if case["kind"] == "raising":
         return [m for _c, m, _l in check_raising()]
     if case["kind"] == "rawports":
-        return [m for _c, m, _l in check_list([tuple(p) for p in case["ports"]])[0]]
+        out = []
+        for style in ("list", "generator", "tuple"):
+            ENUMERATION_STYLE[0] = style
+            try:
+                out += [m + f" [enumerator answers with a {style}]" for _c, m, _l in
+                        check_list([tuple(p) for p in case["ports"]])[0]]
+            finally:
+                ENUMERATION_STYLE[0] = "list"
+        return out
     if case["kind"] == "named":
         return [m for _c, m, _l in check_list(named_ports(case["style"], case["name"]))[0]]
     ports = [DESCRIPTORS[k] for k in case["combo"]]
